@@ -177,46 +177,26 @@ Qed.
 (* ------------------------------------------------ the level the glue test uses *)
 Definition level_ok (st : name * nat) : Prop := (length (fst st) <= snd st)%nat.
 
-(* the uncached descent and the minimisation step keep rs.level >= CountLabel(zone);
-   the cached descent does so only for a referral that goes down by no more than the level does *)
-Definition step_guard (st : name * nat) (s : dstep) : Prop :=
-  match s with
-  | StepCached child => (length child <= S (snd st))%nat
-  | _ => True
-  end.
+(* every step keeps rs.level >= CountLabel(zone asked): the uncached descent sets it to the child's
+   depth, the cached descent takes the deeper of level+1 and the child's depth, a minimisation
+   step only increments it *)
+Lemma descent_step_level st s : level_ok st -> level_ok (descent_step st s).
+Proof. destruct st as [z lv], s as [c|c|]; unfold level_ok, descent_step; cbn [fst snd]; lia. Qed.
 
-Lemma descent_step_level st s : level_ok st -> step_guard st s -> level_ok (descent_step st s).
-Proof. destruct st as [z lv], s as [c|c|]; unfold level_ok, step_guard; cbn; lia. Qed.
-
-Fixpoint steps_guarded (st : name * nat) (steps : list dstep) : Prop :=
-  match steps with
-  | [] => True
-  | s :: rest => step_guard st s /\ steps_guarded (descent_step st s) rest
-  end.
-
-Lemma descent_level_guarded zone steps :
-  steps_guarded (descent_start zone) steps -> level_ok (descent zone steps).
+Lemma descent_level_ok zone steps : level_ok (descent zone steps).
 Proof.
   unfold descent. assert (H0 : level_ok (descent_start zone)) by (unfold level_ok, descent_start; cbn; lia).
-  revert H0. generalize (descent_start zone). induction steps as [|s rest IH]; intros st H0 H; cbn; [exact H0|].
-  destruct H as [Hg Hr]. apply IH; [apply descent_step_level; assumption | exact Hr].
-Qed.
-
-(* with the repair of fix.patch the invariant needs no side condition *)
-Lemma descent_step_fixed_level st s : level_ok st -> level_ok (descent_step_fixed st s).
-Proof. destruct st as [z lv], s as [c|c|]; unfold level_ok, descent_step_fixed; cbn [fst snd]; lia. Qed.
-
-Lemma descent_fixed_level zone steps : level_ok (fold_left descent_step_fixed steps (descent_start zone)).
-Proof.
-  assert (H0 : level_ok (descent_start zone)) by (unfold level_ok, descent_start; cbn; lia).
   revert H0. generalize (descent_start zone). induction steps as [|s rest IH]; intros st H0; cbn; [exact H0|].
-  apply IH, descent_step_fixed_level, H0.
+  apply IH, descent_step_level, H0.
 Qed.
 
-(* the code as it is: the root's servers, a referral two labels down, delegation already cached *)
+(* before commit 767eb6f the cached step only incremented: the root's servers, a referral two
+   labels down, delegation already cached, left level 1 for a two-label zone *)
 Definition l3 : name := [[108; 51]].
 Definition evil_l3 : name := [[108; 51]; [101; 118; 105; 108]].
-Lemma descent_level_counterexample :
+Lemma old_descent_level_counterexample :
   progressing_referral evil_l3 [] (evil_l3 ++ [[120]]) = true /\
-  descent [] [StepCached evil_l3] = (evil_l3, 1%nat) /\ ~ level_ok (descent [] [StepCached evil_l3]).
+  fold_left descent_step_old [StepCached evil_l3] (descent_start []) = (evil_l3, 1%nat) /\
+  ~ level_ok (fold_left descent_step_old [StepCached evil_l3] (descent_start [])) /\
+  descent [] [StepCached evil_l3] = (evil_l3, 2%nat).
 Proof. repeat split. unfold level_ok. cbn. lia. Qed.
